@@ -40,4 +40,70 @@ def units(tier):
                 lang='c', route='P', forbid_auto=False,
                 trusted=["std::vector<unsigned>::operator[] on an index below size() is the array access p_[i] (signature rewrite to pointers)"],
                 assumptions=["array lengths <= K (stated per run)"])
-    return [pred]
+    return [pred, ops_unit(tier)]
+
+CTOK = [R('std::vector<unsigned>', 'uvec', n='*', why="std::vector<unsigned> -> fixed-capacity stub with bound-asserting accessors and position iterators"),
+        R('RCP<const Basic>', 'RCPBasic', n='*', why="RCP<const Basic> -> field element (prelude/field.h)"),
+        R('std::move(', 'std_move(', n='*', why="rvalue conversion is not supported by the front end: identity on lvalues"),
+        R(r'throw (\w+)\(((?:[^;()"]|"[^"]*"|\([^()]*\))*)\);', r'VERIF_THROW(\1);', n='*', regex=True, why="exception object dropped (DESIGN §8)")]
+
+def ops_pieces():
+    P = lambda sig, rules=(): Piece(SP, sig, rules=list(rules) + CTOK)
+    return [
+        P(r'bool CSRMatrix::is_canonical\(\) const'),
+        P(r'RCP<const Basic> CSRMatrix::get\(unsigned i, unsigned j\) const'),
+        P(r'void CSRMatrix::set\(unsigned i, unsigned j, const RCP<const Basic> &e\)'),
+        P(r'bool CSRMatrix::csr_has_duplicates\(const std::vector<unsigned> &p_,'),
+        P(r'bool CSRMatrix::csr_has_sorted_indices\(const std::vector<unsigned> &p_,'),
+        P(r'bool CSRMatrix::csr_has_canonical_format\(const std::vector<unsigned> &p_,'),
+        P(r'void CSRMatrix::csr_sum_duplicates\(std::vector<unsigned> &p_,'),
+        P(r'CSRMatrix CSRMatrix::from_coo\(unsigned row, unsigned col,',
+          [R('numeric_cast<unsigned>(', 'numeric_cast_unsigned(', n=1, why="template syntax; identity on an in-range size")]),
+        P(r'CSRMatrix CSRMatrix::transpose\(bool conjugate\) const',
+          [R('const auto nnz = j_.size();', 'const unsigned nnz = j_.size();', n=1, why="auto -> explicit type (vector size, cast to unsigned in every use)"),
+           R('const auto ci = j_[i];', 'const unsigned ci = j_[i];', n=1, why="auto -> the element type"),
+           R('std::partial_sum(p.begin(), p.end(), p.begin());', 'partial_sum_inplace(p);', n=1, why="iterator-range algorithm -> stub with the standard semantics (iterators are positions in the stub)"),
+           R('SymEngine::conjugate(', 'field_conjugate(', n=1, why="conjugate of an exact real number is the identity in the field model")]),
+        P(r'void csr_diagonal\(const CSRMatrix &A, DenseMatrix &D\)'),
+        P(r'void csr_scale_rows\(CSRMatrix &A, const DenseMatrix &X\)'),
+        P(r'void csr_scale_columns\(CSRMatrix &A, const DenseMatrix &X\)'),
+        P(r'void csr_binop_csr_canonical\(',
+          [R(r'RCP<const Basic> \(&bin_op\)\(const RCP<const Basic> &,\s*const RCP<const Basic> &\)\)', 'RCPBasic (*bin_op)(const RCPBasic &, const RCPBasic &))', n=1, regex=True,
+             why="reference to function -> pointer to function (same call syntax)")]),
+    ]
+
+def ops_unit(tier):
+    shapes = [(2, 3, 6)] if tier == 'quick' else [(2, 3, 6), (3, 3, 6), (3, 2, 6)]
+    ents = []
+    hs = ['h_get', 'h_set', 'h_set_twice', 'h_sum_duplicates', 'h_from_coo', 'h_transpose', 'h_diagonal', 'h_scale', 'h_binop']
+    for nr, nc, nnz in shapes:
+        for h in hs:
+            cap = 9
+            r, c, z = nr, nc, nnz
+            if tier == 'quick' and h == 'h_binop':
+                r, c, z = 2, 2, 4
+            if tier == 'quick' and h == 'h_from_coo':
+                z = 4
+            ents.append(Entry(h, defines={'FP': 3, 'NR': r, 'NC': c, 'NNZ': z, 'CAP': cap}, route='B', timeout=1500 if tier == 'quick' else 3600, mem_gb=8,
+                              unwind=cap + 2, bounds="%dx%d matrices over GF(3), at most %d stored entries, every sparsity pattern and value; unwinding %d with unwinding assertions" % (r, c, z, cap + 2)))
+    return Unit('csr_operations', 'C25', 'contracts/C25/ops.cpp', {'csr.inc': ops_pieces()}, ents, route='B',
+                trusted=["field prelude prelude/field.h (entries are elements of GF(3): exact add/sub/mul and is_zero)",
+                         "contracts/C25/csr_prelude.h: std::vector<unsigned> / vec_basic stubs with position iterators, std::swap, std::partial_sum, DenseMatrix get/set",
+                         "csr_sort_indices is NOT under contract (lambda passed to std::sort): replaced by its assumed contract, realised by an insertion sort"],
+                assumptions=["symbolic (non-numeric) entries where is_zero is indeterminate, jacobian, csr_matmat_pass1/2 (unused in the library) and CSRMatrix::eq/conjugate are not covered",
+                             "sizes beyond the stated bound"])
+
+
+
+def replay_args(obl, inputs, res):
+    import re
+    e = res.get("_e")
+    d = e.defines if e else res.get("defines", {})
+    if 'NR' not in d:
+        return None
+    norm = {}
+    for k, v in inputs.items():           # later assignments win; CBMC prints array indices as 0l / 0
+        k2 = re.sub(r'\[(\d+)l\]', r'[\1]', k)
+        if re.match(r'^(M|A|B|ci|cj|cx)\.|^(si|sj|sv|op|nnz|rows)$|^s\[', k2) and 'data' in v:
+            norm[k2] = re.sub(r'[ul]+$', '', v['data'])
+    return [obl, "NR=%s" % d['NR'], "NC=%s" % d['NC']] + ["%s=%s" % kv for kv in sorted(norm.items()) if kv[1].lstrip('-').isdigit()]
